@@ -80,8 +80,14 @@ PatternValueG(g, cls, r, c) ==
 DataModuleCount(v) ==
   LET g == Geo(v) n == g.n IN
   FoldLeft(LAMBDA a, r : a + Cardinality({c \in 0..n-1 : ~IsFuncG(g, r-1, c)}), 0, Iota(n))
-DataModuleCounts == [k \in 1..44 |-> DataModuleCount(AllVersions[k])] \o <<>>
-DataModules(v) == DataModuleCounts[v+4]
+\* closed form of the same count (finder + separators, timing, alignment minus their overlap with timing, format incl. dark
+\* module, version information); ISOSelfCheck proves it equal to the geometric count for all 44 versions
+DataModules(v) ==
+  LET n == Size(v) IN
+  IF IsMicro(v) THEN n*n - 64 - 2*(n - 8) - 15
+  ELSE LET k == IF v = 1 THEN 0 ELSE v \div 7 + 2
+           align == IF k >= 2 THEN 25 * (k*k - 3) - 10 * (k - 2) ELSE 0
+       IN n*n - 192 - 2*(n - 16) - align - 31 - (IF v >= 7 THEN 36 ELSE 0)
 MicroTotal(v) == <<5,10,17,24>>[v+4]        \* M1/M3: the last data codeword has 4 bits
 TotalCodewords(v) == IF IsMicro(v) THEN MicroTotal(v) ELSE DataModules(v) \div 8
 RemainderBits(v) == IF IsMicro(v) THEN 0 ELSE DataModules(v) % 8
@@ -186,7 +192,9 @@ EciNumbers(name) == LET S == {EciTable[i][2] : i \in {k \in 1..Len(EciTable) : E
                     ELSE IF name \in {"gbk", "gb18030"} THEN S \cup {29} ELSE S   \* 29 covered GBK / GB 18030 before AIM split them
 
 (* ---------------- self checks ---------------- *)
-ISOSelfCheck ==
+\* (parameterised so that TLC does not evaluate it eagerly as a constant in every run)
+ISOSelfCheck(dummy) ==
+  /\ \A k \in 1..44 : DataModules(AllVersions[k]) = DataModuleCount(AllVersions[k])
   /\ \A v \in 1..40 : \A e \in {"L","M","Q","H"} :
         LET lay == Layout(v, e) IN
         /\ FoldLeft(LAMBDA a, b : a + b[1] + b[2], 0, lay) = TotalCodewords(v)
